@@ -17,6 +17,9 @@ Definition keep (e : list N * val) : bool :=
   negb (is_prefix P_mkl (fst e)) && negb (is_counter_key (fst e) && is_zero (snd e)).
 
 Definition norm (m : db) : db := filter keep m.
+
+(** an index entry proper: neither a counter nor a version key list *)
+Definition plain (k : list N) : bool := negb (is_prefix P_mkl k) && negb (is_counter_key k).
 Definition obs_eq (m1 m2 : db) : Prop := norm m1 = norm m2.
 
 (** * hypotheses of the theorem, as boolean predicates *)
